@@ -555,6 +555,12 @@ _public_ int m_mod_set_tokenbucket(m_mod_t *mod, uint32_t rate, uint64_t burst) 
 
     // src_deregister and src_register already consume a token
 
+    /*
+     * (Re)configuring the bucket must not be throttled by the very bucket being replaced:
+     * with no tokens left, the old refill timer would not be removed and both timers would refill.
+     */
+    mod->tb.tokens = UINT64_MAX;
+
     /* If it was already set, remove old timer */
     if (mod->tb.timer.ns != 0) {
         m_mod_src_deregister_tmr(mod, &mod->tb.timer);
@@ -572,10 +578,12 @@ _public_ int m_mod_set_tokenbucket(m_mod_t *mod, uint32_t rate, uint64_t burst) 
     // Store new values and create new token bucket timer src
     mod->tb.rate = rate;
     mod->tb.burst = burst;
-    mod->tb.tokens = burst;
     mod->tb.timer.clock_id = CLOCK_MONOTONIC;
     mod->tb.timer.ns = BILLION / rate;
-    return m_mod_src_register_tmr(mod, &mod->tb.timer, M_SRC_INTERNAL | M_SRC_PRIO_HIGH, &mod->tb);
+    const int ret = m_mod_src_register_tmr(mod, &mod->tb.timer, M_SRC_INTERNAL | M_SRC_PRIO_HIGH, &mod->tb);
+    /* The bucket starts full: the refill timer's own registration is not charged to it */
+    mod->tb.tokens = burst;
+    return ret;
 }
 
 _public_ __attribute__((format (printf, 2, 3))) int m_mod_log(const m_mod_t *mod, const char *fmt, ...) {
